@@ -2,8 +2,9 @@
    (harness/c14_bounce.c) against `Nq.Bounce`; the oracle is `Nq.BounceSpec` (paragraph reader,
    governing virtualdomains entry, envelope rules) evaluated on what the implementation produced.
    Input lines (hex fields, blob = NUL-separated case fields):
-     P <blob> <stripped> <text> <sleeps>
-     I <id> <blob> <bouncefile> <ret> <q> <F> <T> <body> <left> <log> <ret2> <q2> <F2> <T2> <body2|=> <left2> <log2> <sizes>
+     P <blob> <stripped> <text> <sleeps> <flagstrip> <stored>
+     I <id> <blob> <bouncefile> <ret> <q> <F> <T> <body> <left> <log> <ret2> <q2> <F2> <T2> <body2|=> <left2> <log2> <sizes> <routes>
+     Q <blob> <bouncefile> <ret> <left> <rec> <msg> <env> <ret2> <left2> <rec2> <msg2> <env2> <routes>
      C <blob> <n> <sender0> {<F> <T>}*
      D <blob> <appended>
    Daemon level (C14_daemon_*): every I line is also replayed as the whole life of message <id> through the
@@ -15,13 +16,16 @@
    Oracle inputs are computed on the SPEC side from the raw control-file bytes of the case (`specVdoms`, `specLocals`,
    `specDoubleBounceTo` of Nq.BounceSpec), not with the model's `getcontrols`/`readfile`; the model's values are used for the
    DISAGREE channel only (and a difference between the two parses is itself a DISAGREE).
-   Open finding C14-strip-exception: the naming oracle is strict (`namedRecipient` with the exception rule); a failure that is
-   exactly that finding (the recipient has an exception entry of its own and is named as the function without the
-   whole-recipient lookup names it) carries `known=C14-strip-exception`; the remaining checks of such a case are still made. -/
+   Channels: `addbounce(id,recip,report,flagstrip)`; the harness prints flagstrip and the stored recipient of every failure.  P
+   mode A and every I/C/Q failure start from an ORIGINAL address routed by the real rewrite(): its (channel, stored form) is
+   compared with C10's model `Nq.Rewrite.rewrite` over the spec-side tables (DISAGREE), and the END-TO-END oracle demands that the
+   paragraph names the routed address `(rewrite c a).addr` whenever the non-ambiguity hypothesis of C14_bounce_names_routed_address
+   holds (always on the remote channel).  Q lines come from the binary that links the REAL qmail.c with a scripted queue program. -/
 import Drv.Util
 import Nq.Bounce
 import Nq.Spec.BounceSpec
 import Nq.BounceDaemon
+import Nq.Rewrite
 
 open Nq Nq.Bounce Nq.BounceSpec Nq.BounceDaemon Drv
 
@@ -59,6 +63,12 @@ def controlsOf (fs : List Bytes) : Controls :=
   { me := has 109 1, bouncefrom := has 102 2, bouncehost := has 104 3, doublebounceto := has 116 4,
     doublebouncehost := has 100 5, virtualdomains := has 118 6, locals := loc }
 
+/-- envnoathost as getcontrols() reads it when there is no control/envnoathost: first line of control/me, else the literal -/
+def envOf (c : Controls) : Bytes :=
+  match c.me with
+  | some m => specFirstLine m
+  | none => str "envnoathost"
+
 /-- spec-side VERP base, written independently of `verpBase`: drop a final "-@[]" -/
 def specBase (s : Bytes) : Bytes :=
   match s.reverse with
@@ -72,31 +82,39 @@ def isSuffix (a b : Bytes) : Bool := a.reverse.isPrefixOf b.reverse
 
 def dropTrailingLF (t : Bytes) : Bytes := (t.reverse.dropWhile (· == LF)).reverse
 
-def KNOWN : String := " known=C14-strip-exception"
+/-- naming oracle over the paragraphs of a bounce file / notice -/
+def namingOK (ls : List Bytes) (es : List (Bytes × Bytes)) (fails : List Fail) (ps : List Bytes) : Bool :=
+  (List.zip fails ps).all (fun (fr, p) => (recipLine (namedRecipient fr.1 ls es fr.2.1)).isPrefixOf p)
 
-/-- what the function WITHOUT the whole-recipient lookup names (rules 1, 3, 4 only; spec vocabulary, cf. C14_strip_unrepaired) -/
-def unrepairedName (ls : List Bytes) (es : List (Bytes × Bytes)) (recip : Bytes) : Bytes :=
-  match domainPart recip with
-  | none => recip
-  | some d => if isLocal ls d then recip else prefixUndone es recip d
+/-- C10's configuration from the spec-side tables (no percenthack file in these cases) -/
+def rcfgOf (env : Bytes) (ls : List Bytes) (es : List (Bytes × Bytes)) : Rewrite.Cfg :=
+  { env := env, ph := [], locals := ls.map (fun l => ⟨l, []⟩), vdoms := es.map (fun e => ⟨e.1, e.2⟩) }
 
-inductive Named | ok | known | bad
-  deriving DecidableEq
+def ENVDEFAULT : Bytes := str "envnoathost"
 
-/-- does `p` begin with the line naming `recip` as documented?  `known` = exactly the open finding -/
-def namedCheck (ls : List Bytes) (es : List (Bytes × Bytes)) (recip p : Bytes) : Named :=
-  if (recipLine (namedRecipient ls es recip)).isPrefixOf p then .ok
-  else if hasException es recip && (recipLine (unrepairedName ls es recip)).isPrefixOf p then .known
-  else .bad
+/-- channel flag and stored recipient `rewrite()` gives an original address (C10's model) -/
+def routeOf (rc : Rewrite.Cfg) (a : Bytes) : Bool × Bytes :=
+  let r := Rewrite.rewrite rc a
+  (r.chan == .loc, if r.tag = [] then r.addr else r.tag ++ 45 :: r.addr)
 
-/-- the name to use for the remaining checks of a paragraph: the documented one, or (known finding) the one written -/
-def nameFor (ls : List Bytes) (es : List (Bytes × Bytes)) (recip p : Bytes) : Bytes :=
-  if namedCheck ls es recip p == .known then unrepairedName ls es recip else namedRecipient ls es recip
+/-- END TO END (C14_bounce_names_routed_address evaluated on the implementation): the paragraph `p` written for the original
+address `a` must begin with the line naming the routed address — required whenever the non-ambiguity hypothesis holds.
+`none` = hypothesis fails (inherent ambiguity, skipped), `some ok` otherwise. -/
+def e2eCheck (rc : Rewrite.Cfg) (es : List (Bytes × Bytes)) (a p : Bytes) : Option Bool :=
+  let r := Rewrite.rewrite rc a
+  let stored := if r.tag = [] then r.addr else r.tag ++ 45 :: r.addr
+  let unamb := r.tag = [] || (match userSplit es stored with | none => true | some rest => rest == r.addr)
+  if unamb then some ((recipLine r.addr).isPrefixOf p) else none
 
-/-- naming oracle over the paragraphs of a bounce file / notice: `none` = all named as documented, else (why-suffix, tag) -/
-def namingOK (ls : List Bytes) (es : List (Bytes × Bytes)) (fails : List (Bytes × Bytes)) (ps : List Bytes) : Option String :=
-  let rs := (List.zip fails ps).map (fun (fr, p) => namedCheck ls es fr.1 p)
-  if rs.any (· == .bad) then some "" else if rs.any (· == .known) then some KNOWN else none
+/-- "<flag>:<storedhex>,…" -/
+def parseRoutes (s : String) : Option (List (Bool × Bytes)) :=
+  if s == "-" then some [] else
+  (s.splitOn ",").mapM (fun it => match it.splitOn ":" with
+    | [f, h] => match b01' f, unhex h with
+      | some fl, some st => some (fl, st)
+      | _, _ => none
+    | _ => none)
+where b01' (s : String) : Option Bool := if s == "1" then some true else if s == "0" then some false else none
 
 /-- oracle for one recipient paragraph as written by the implementation; `named` = the address it must name -/
 def paragraphOK (named report text : Bytes) : Option String :=
@@ -123,7 +141,7 @@ def envelopeOK (dbto : Bytes) (sender : Bytes) (q : Bool) (f : Bytes) (t : List 
 predicates are: the original message is a suffix; one paragraph per failed recipient, in order, each naming its recipient;
 two header paragraphs before them.  The model's `trailer` is used only to LOCATE the end of the recipient paragraphs (the
 marker and Return-Path line sit between them and the message). -/
-def noticeOK (ls : List Bytes) (es : List (Bytes × Bytes)) (dbto : Bytes) (sender mess : Bytes) (fails : List (Bytes × Bytes)) (body : Bytes) : Option String :=
+def noticeOK (ls : List Bytes) (es : List (Bytes × Bytes)) (dbto : Bytes) (sender mess : Bytes) (fails : List Fail) (body : Bytes) : Option String :=
   let base := specBase sender
   let single := !base.isEmpty
   let tail := trailer single base mess
@@ -139,9 +157,8 @@ def noticeOK (ls : List Bytes) (es : List (Bytes × Bytes)) (dbto : Bytes) (send
   -- domain part verbatim); the count of the header paragraphs is then not 2, the recipient paragraphs are
   -- still checked from the end
   else if !hasLFLF (Quote.quote2 toAddr ++ [LF]) && ps.length != n + 2 then some "paragraph-count-differs-from-failed-recipients"
-  else match namingOK ls es fails rcptParas with
-    | some tag => some ("paragraph-does-not-name-its-recipient" ++ tag)
-    | none => none
+  else if !namingOK ls es fails rcptParas then some "paragraph-does-not-name-its-recipient"
+  else none
 
 def showRes (r : Res) : String :=
   match r.queued with
@@ -168,78 +185,89 @@ def agreeRes (r : Res) (ret q : Bool) (f : Bytes) (t : List Bytes) (body : Optio
    | some m => m.sender == f && m.rcpts == t && (match body with | some b => m.body == b | none => true)
    | none => true)
 
-def handleP (o : Out) (blobh : String) (blob stripped text : Bytes) : Out := Id.run do
+def handleP (o : Out) (blobh : String) (blob stripped text : Bytes) (flag : Bool) (stored : Bytes) : Out := Id.run do
   let fs := splitNul blob
   let es : Tables := { locals := readfile (fld fs 4), vdoms := cmEntries (readfile (fld fs 0)) }
   -- spec side, from the bytes
   let sl := specControlLines (fld fs 4)
   let sv := specVdoms (some (fld fs 0))
-  let recip := fld fs 1
+  let given := fld fs 1
   let report := fld fs 2
+  let mode := (fld fs 5).headD 76
   let mut o := o
-  o := { o with st := o.st.bump "kindP" }
+  o := { o with st := (o.st.bump "kindP").bump (if mode == 65 then "P_mode_address" else if flag then "P_mode_local_record" else "P_mode_remote_record") }
   if sl != es.locals || sv != es.vdoms then
     o := o.dis s!"in={blobh} kind=P what=control-file-parse model-and-spec-differ"
-  match domainPart recip with
-  | some d =>
-    if isLocal sl d then o := { o with st := o.st.bump "P_local_domain" }
-    else if hasException sv recip then o := { o with st := o.st.bump "P_exception_entry" }
-    else if (userSplit sv recip).isSome then o := { o with st := o.st.bump "P_virtual_user" }
-  | none => pure ()
-  let ms := stripvdom es recip
-  let mt := addbounceText es recip report
+  -- the routing the harness observed from the real rewrite() against C10's model (mode A); direct modes: as given
+  let rc := rcfgOf ENVDEFAULT sl sv
+  let want : Bool × Bytes := if mode == 65 then routeOf rc given else (mode != 82, given)
+  if want != (flag, stored) then
+    o := o.dis s!"in={blobh} kind=P what=routing impl={flag}:{hex stored} model={want.1}:{hex want.2}"
+  if flag then
+    match domainPart stored with
+    | some d =>
+      if isLocal sl d then o := { o with st := o.st.bump "P_local_domain" }
+      else if (userSplit sv stored).isSome then o := { o with st := o.st.bump "P_virtual_user" }
+    | none => pure ()
+  let ms := stripvdom es stored
+  let mt := addbounceText es flag stored report
   if ms != stripped || mt != text then
     o := o.dis s!"in={blobh} kind=P impl={hex stripped} {hex text} model={hex ms} {hex mt}"
-  if stripped != recip then o := { o with st := o.st.bump "P_prefix_removed" }
-  let spec := namedRecipient sl sv recip
-  let known := hasException sv recip && stripped == unrepairedName sl sv recip && stripped != spec
-  if stripped != spec then
-    o := o.ora s!"in={blobh} kind=P why=virtual-domain-prefix-not-removed-as-specified stripped={hex stripped} spec={hex spec}{if known then KNOWN else ""}"
-    if known then o := { o with st := o.st.bump "known_strip_exception" }
-  -- the remaining checks of a known-finding case are made against the name that was written
-  match paragraphOK (if known then stripped else spec) report text with
-  | some why => o := o.ora s!"in={blobh} kind=P why={why} text={hex text}"
+  if stripped != stored then o := { o with st := o.st.bump "P_strip_changes" }
+  -- stripvdomprepend() itself is the local-channel rule (C14_strip)
+  if stripped != namedRecipient true sl sv stored then
+    o := o.ora s!"in={blobh} kind=P why=virtual-domain-prefix-not-removed-as-specified stripped={hex stripped} spec={hex (namedRecipient true sl sv stored)}"
+  -- what addbounce wrote names the channel-aware address (C14_names, C14_paragraph)
+  let spec := namedRecipient flag sl sv stored
+  match paragraphOK spec report text with
+  | some why => o := o.ora s!"in={blobh} kind=P why={why} flagstrip={flag} stored={hex stored} must-name={hex spec} text={hex text}"
   | none => pure ()
+  -- end to end (mode A): the paragraph names the routed address
+  if mode == 65 then
+    match e2eCheck rc sv given text with
+    | some true => o := { o with st := o.st.bump "e2e_checked" }
+    | some false => o := o.ora s!"in={blobh} kind=P why=bounce-does-not-name-the-routed-address routed={hex (Rewrite.rewrite rc given).addr} flagstrip={flag} stored={hex stored} text={hex text}"
+    | none => o := { o with st := o.st.bump "e2e_ambiguous_skipped" }
   return o
 
 def handleD (o : Out) (blobh : String) (blob appended : Bytes) : Out := Id.run do
   let fs := splitNul blob
   let dying := (fld fs 0).head? == some 49
+  -- del_dochan(c) passes `c == 0`: flags[1] = 'r' is the remote channel
+  let flag := (fld fs 0).getD 1 108 != 114
   let recip := fld fs 1
   let raw := fld fs 2
   let es : Tables := { locals := readfile (fld fs 5), vdoms := cmEntries (readfile (fld fs 4)) }
   let sl := specControlLines (fld fs 5)
   let sv := specVdoms (some (fld fs 4))
   let mut o := o
-  o := { o with st := o.st.bump "kindD" }
+  o := { o with st := (o.st.bump "kindD").bump (if flag then "D_local_channel" else "D_remote_channel") }
   if sl != es.locals || sv != es.vdoms then
     o := o.dis s!"in={blobh} kind=D what=control-file-parse model-and-spec-differ"
   let rep := delReport dying (1 :: raw)
-  let expect := match rep with | some r => addbounceText es recip r | none => ABSENT
+  let expect := match rep with | some r => addbounceText es flag recip r | none => ABSENT
   if expect != appended then
     o := o.dis s!"in={blobh} kind=D impl={hex appended} model={hex expect}"
   -- spec: a paragraph iff status 'D', or 'Z' while the message is past its lifetime
   let st := raw.head?
   let want := st == some 68 || (st == some 90 && dying)
   o := { o with st := o.st.bump (if want then "D_bounced" else "D_not_bounced") }
+  let spec := namedRecipient flag sl sv recip
   if want then
-    let nc := namedCheck sl sv recip appended
     if appended == ABSENT then o := o.ora s!"in={blobh} kind=D why=permanent-failure-not-recorded"
     else if (paragraphs appended).length != 1 then o := o.ora s!"in={blobh} kind=D why=not-exactly-one-paragraph text={hex appended}"
-    else
-      if nc != .ok then
-        o := o.ora s!"in={blobh} kind=D why=does-not-start-with-recipient-line text={hex appended}{if nc == .known then KNOWN else ""}"
-        if nc == .known then o := { o with st := o.st.bump "known_strip_exception" }
-      if nc != .bad && raw.length + 1 < Gen.REPORTMAX && st == some 68 then
-        match paragraphOK (nameFor sl sv recip appended) (raw.drop 1) appended with
-        | some why => o := o.ora s!"in={blobh} kind=D why={why} text={hex appended}"
-        | none => pure ()
+    else if !(recipLine spec).isPrefixOf appended then
+      o := o.ora s!"in={blobh} kind=D why=does-not-start-with-recipient-line channel-local={flag} must-name={hex spec} text={hex appended}"
+    else if raw.length + 1 < Gen.REPORTMAX && st == some 68 then
+      match paragraphOK spec (raw.drop 1) appended with
+      | some why => o := o.ora s!"in={blobh} kind=D why={why} text={hex appended}"
+      | none => pure ()
   else if appended != ABSENT then o := o.ora s!"in={blobh} kind=D why=bounce-recorded-without-permanent-failure text={hex appended}"
   return o
 
 def handleI (o : Out) (id : Nat) (blobh : String) (blob : Bytes) (bfile : Option Bytes)
     (ret q : Bool) (f : Bytes) (t : List Bytes) (body : Bytes) (left : Bool) (log : Bytes)
-    (ret2 q2 : Bool) (f2 : Bytes) (t2 : List Bytes) (body2 : Option Bytes) (left2 : Bool) : Out := Id.run do
+    (ret2 q2 : Bool) (f2 : Bytes) (t2 : List Bytes) (body2 : Option Bytes) (left2 : Bool) (routes : List (Bool × Bytes)) : Out := Id.run do
   let fs := splitNul blob
   let ctl := controlsOf fs
   let cfg := getcontrols ctl
@@ -250,11 +278,17 @@ def handleI (o : Out) (id : Nat) (blobh : String) (blob : Bytes) (bfile : Option
   let fault := faultOf (fld fs 8)
   let sender := fld fs 9
   let mess := fld fs 10
-  let fails := pairsFrom (fs.drop 11)
+  -- the failures: original address + report in the blob; (flagstrip, stored) as the real rewrite() routed them
+  let given := pairsFrom (fs.drop 11)
+  let rc := rcfgOf (envOf ctl) sl sv
+  let fails : List Fail := (List.zip routes given).map (fun (rt, g) => (rt.1, rt.2, g.2))
   let mut o := o
   o := { o with st := (o.st.bump "kindI").bump ("fault_" ++ String.ofList [Char.ofNat ((fld fs 8).headD 45).toNat]) }
   if sl != cfg.locals || sv != cfg.vdoms || sdb != cfg.doublebounceto then
     o := o.dis s!"in={blobh} kind=I what=controls model-and-spec-differ spec-dbto={hex sdb} model-dbto={hex cfg.doublebounceto}"
+  if routes != given.map (fun g => routeOf rc g.1) then
+    o := o.dis s!"in={blobh} kind=I what=routing impl={routes.map (fun r => s!"{r.1}:{hex r.2}")} model={(given.map (fun g => routeOf rc g.1)).map (fun r => s!"{r.1}:{hex r.2}")}"
+  for rt in routes do o := { o with st := o.st.bump (if rt.1 then "I_failure_local_channel" else "I_failure_remote_channel") }
   -- model
   let mb := if fails.isEmpty then none else some (bounceFile cfg.tables fails)
   if mb != bfile then
@@ -276,11 +310,15 @@ def handleI (o : Out) (id : Nat) (blobh : String) (blob : Bytes) (bfile : Option
     let ps := paragraphs b
     if ps.length != fails.length then
       o := o.ora s!"in={blobh} kind=I why=bounce-file-paragraphs-differ-from-failed-recipients n={ps.length} fails={fails.length} file={hex b}"
-    else match namingOK sl sv fails ps with
-      | some tag =>
-        o := o.ora s!"in={blobh} kind=I why=bounce-file-paragraph-does-not-name-its-recipient file={hex b}{tag}"
-        if tag == KNOWN then o := { o with st := o.st.bump "known_strip_exception" }
-      | none => pure ()
+    else if !namingOK sl sv fails ps then
+      o := o.ora s!"in={blobh} kind=I why=bounce-file-paragraph-does-not-name-its-recipient file={hex b}"
+    else
+      -- end to end: each paragraph names the routed address of the ORIGINAL recipient (where unambiguous)
+      for (g, pp) in List.zip given ps do
+        match e2eCheck rc sv g.1 pp with
+        | some true => o := { o with st := o.st.bump "e2e_checked" }
+        | some false => o := o.ora s!"in={blobh} kind=I why=bounce-does-not-name-the-routed-address address={hex g.1} routed={hex (Rewrite.rewrite rc g.1).addr} file={hex b}"
+        | none => o := { o with st := o.st.bump "e2e_ambiguous_skipped" }
   | none => if !fails.isEmpty then o := o.ora s!"in={blobh} kind=I why=failures-not-recorded"
   match envelopeOK sdb sender q f t with
   | some why => o := o.ora s!"in={blobh} kind=I why={why} F={hex f} T={",".intercalate (t.map hex)} want-dbto={hex sdb}"
@@ -313,6 +351,65 @@ def handleI (o : Out) (id : Nat) (blobh : String) (blob : Bytes) (bfile : Option
   return o
 
 
+/-- envelope bytes as qmail-queue receives them, from the captured qmail_from / qmail_to calls -/
+def envReal (f : Bytes) (t : List Bytes) : Bytes := 70 :: f ++ [0] ++ (t.map (fun r => 84 :: r ++ [0])).flatten
+
+/-- Q: the real qmail.c (qmail_open/qmail_put/qmail_from/qmail_to/qmail_close) between injectbounce() and a scripted queue
+program (exit code / death by signal).  `rec` = the queue program ran and recorded (message, envelope).  The notice is
+COMMITTED only if the queue program exited 0 without a signal.  Oracle: bounce/<id> removed / return 1 only if committed (or the
+documented discard / nothing failed); after a refused injection the retry (scripted 0,0) commits the notice; what the queue
+program was given is the notice (contains the bounce file, envelope as prescribed). -/
+def handleQ (o : Out) (blobh : String) (blob : Bytes) (bfile : Option Bytes) (ret left rec : Bool) (msg env : Bytes)
+    (ret2 left2 rec2 : Bool) (msg2 env2 : Bytes) (routes : List (Bool × Bytes)) : Out := Id.run do
+  let fs := splitNul blob
+  let ctl := controlsOf fs
+  let cfg := getcontrols ctl
+  let sdb := specDoubleBounceTo ctl.doublebounceto ctl.doublebouncehost ctl.me
+  let script := ((String.fromUTF8! ⟨(fld fs 8).toArray⟩).splitOn ",").map (·.toNat?)
+  let (code, sig) : Nat × Nat := match script with
+    | [some c, some s] => (c, s)
+    | _ => (0, 0)
+  let okq := code == 0 && sig == 0
+  let sender := fld fs 9
+  let mess := fld fs 10
+  let given := pairsFrom (fs.drop 11)
+  let fails : List Fail := (List.zip routes given).map (fun (rt, g) => (rt.1, rt.2, g.2))
+  let base := specBase sender
+  let had := bfile.isSome
+  let file := bfile.getD []
+  let live := had && base != DBSENDER         -- a notice has to be sent
+  let mut o := o
+  o := { o with st := ((o.st.bump "kindQ").bump (if sig != 0 then "Q_killed_by_signal" else if code == 0 then "Q_exit_0" else "Q_exit_nonzero")) }
+  -- model: a queue program that does not end with exit 0 is a refusal by qmail_close
+  let mb := if fails.isEmpty then none else some (bounceFile cfg.tables fails)
+  if mb != bfile then o := o.dis s!"in={blobh} kind=Q what=bouncefile"
+  let r1 := inject cfg DATE ID0Q 0 (if okq then .none else .qqClose) sender mb mess
+  if r1.ret != ret || r1.bounce.isSome != left || (okq && (r1.queued.map (·.body)) != (if rec then some msg else none)) then
+    o := o.dis s!"in={blobh} kind=Q what=call1 impl=ret={ret} left={left} rec={rec} model=ret={r1.ret} left={r1.bounce.isSome} q={r1.queued.isSome}"
+  let r2 := inject cfg DATE ID0Q 0 .none sender r1.bounce mess
+  if r2.ret != ret2 || r2.bounce.isSome != left2 || r2.queued.isSome != rec2 then
+    o := o.dis s!"in={blobh} kind=Q what=call2 impl=ret={ret2} left={left2} rec={rec2} model=ret={r2.ret} left={r2.bounce.isSome} q={r2.queued.isSome}"
+  -- oracle
+  if live then
+    if !left && !okq then o := o.ora s!"in={blobh} kind=Q why=bounce-file-removed-although-the-queue-program-did-not-accept-the-notice exit={code} signal={sig}"
+    if ret && !okq then o := o.ora s!"in={blobh} kind=Q why=success-reported-although-the-queue-program-did-not-accept-the-notice exit={code} signal={sig}"
+    if !rec then o := o.ora s!"in={blobh} kind=Q why=queue-program-not-run"
+    -- qmail_close() ends the envelope with one more NUL (qmail-queue's format): F sender NUL {T recipient NUL} NUL
+    if rec && !(env.getLast? == some 0 && injectGuard (dcfgQ sdb) sender file env.dropLast msg) then
+      o := o.ora s!"in={blobh} kind=Q why=queue-program-was-not-given-the-notice env={hex env}"
+    if okq then
+      if rec2 then o := o.ora s!"in={blobh} kind=Q why=second-notice-after-success"
+    else
+      if !(rec2 && ret2 && !left2) then o := o.ora s!"in={blobh} kind=Q why=notice-lost-after-refused-injection exit={code} signal={sig}"
+      else if !(env2.getLast? == some 0 && injectGuard (dcfgQ sdb) sender file env2.dropLast msg2) then
+        o := o.ora s!"in={blobh} kind=Q why=retry-did-not-give-the-queue-program-the-notice env={hex env2}"
+  else
+    if rec || rec2 then o := o.ora s!"in={blobh} kind=Q why=notice-sent-although-nothing-to-bounce"
+  return o
+where
+  ID0Q : Nat := 4711
+  dcfgQ (dbto : Bytes) : Daemon.Cfg := { conc := fun _ => 1, lifetime := 604800, route := fun a => (.loc, a), doublebounceto := dbto }
+
 /-! ### daemon level: replay through the monitor, oracle of C14_daemon_* on the implementation's output -/
 
 def ID0 : Nat := 4711
@@ -324,9 +421,6 @@ def okAddr : Bytes := [111, 107]
 structure Chain where
   sg : Option (Daemon.St × Ghost) := none
   gapSender : Bool := false        -- the last message's sender is `#@[]-@[]…` (monitor gap, see C14_daemon_verp_discard_gap)
-
-/-- envelope bytes as qmail-queue receives them, from the captured qmail_from / qmail_to calls -/
-def envReal (f : Bytes) (t : List Bytes) : Bytes := 70 :: f ++ [0] ++ (t.map (fun r => 84 :: r ++ [0])).flatten
 
 /-- cut the bounce file at the sizes observed after each real addbounce() call (oldest first) -/
 def cutParts (file : Bytes) : Nat → List Nat → Option (List Bytes)
@@ -353,7 +447,7 @@ def callEvents (id : Nat) (q : Bool) (f : Bytes) (t : List Bytes) (body log : By
   ++ (if before && !after then [("unlinkBounce", Daemon.Ev.unlinkBounce id)] else [])
 
 def daemonI (o : Out) (ch : Chain) (id : Nat) (blobh : String) (sl : List Bytes) (sv : List (Bytes × Bytes)) (sdb : Bytes)
-    (sender : Bytes) (fails : List (Bytes × Bytes))
+    (sender : Bytes) (fails : List Fail)
     (bfile : Option Bytes) (ret q : Bool) (f : Bytes) (t : List Bytes) (body : Bytes) (left : Bool) (log : Bytes)
     (ret2 q2 : Bool) (f2 : Bytes) (t2 : List Bytes) (body2 : Bytes) (left2 : Bool) (log2 : Bytes) (sizes : List Nat) : Out × Chain := Id.run do
   let mut o := o
@@ -394,14 +488,14 @@ def daemonI (o : Out) (ch : Chain) (id : Nat) (blobh : String) (sl : List Bytes)
   match start with
   | none => return (o, { sg := none })
   | some sg0 =>
-    -- record addresses: the documented name (in a known-finding case the name that was written; the naming itself is judged in handleI)
-    let named := (List.zip fails parts).map (fun (fr, part) => nameFor sl sv fr.1 part)
+    -- record addresses: the documented name (the monitor's header guard wants the name that is written)
+    let named := fails.map (fun fr => namedRecipient fr.1 sl sv fr.2.1)
     let addrs := okAddr :: named
     let setup := lab "setup-arrive" (evArrive id sender addrs)
       ++ lab "setup-deliver" [.cmd .loc 0 id 0 okAddr, .rbytes .loc [0, 75, 0], .markD id .loc 0]
     let failEvs := (List.zip (List.range fails.length) (List.zip fails parts)).flatMap (fun (j, fr, part) =>
       [("setup-cmd", Daemon.Ev.cmd .loc 0 id (recPos addrs (j + 1)) (addrs.getD (j + 1) [])),
-       ("setup-report", Daemon.Ev.rbytes .loc ([0, 68] ++ fr.2.filter (· != 0) ++ [0])),
+       ("setup-report", Daemon.Ev.rbytes .loc ([0, 68] ++ fr.2.2.filter (· != 0) ++ [0])),
        ("appendBounce", Daemon.Ev.appendBounce id part),
        ("setup-mark", Daemon.Ev.markD id .loc (recPos addrs (j + 1)))])
     let close := lab "setup-close" [Daemon.Ev.unlinkChan id .loc]
@@ -452,7 +546,10 @@ def handleC (o : Out) (blobh : String) (blob : Bytes) (n : Nat) (s0 : Bytes) (en
   let sdb := specDoubleBounceTo ctl.doublebounceto ctl.doublebouncehost ctl.me
   let sender := fld fs 9
   let mess := fld fs 10
-  let fails := pairsFrom (fs.drop 11)
+  -- model side of the chain: every failing recipient is routed by C10's model of rewrite() (the real routing is compared on the I lines)
+  let rc := rcfgOf (envOf ctl) (specLocals ctl.locals ctl.me) (specVdoms ctl.virtualdomains)
+  let failOf (a rep : Bytes) : Fail := let rt := routeOf rc a; (rt.1, rt.2, rep)
+  let fails : List Fail := (pairsFrom (fs.drop 11)).map (fun g => failOf g.1 g.2)
   let mut o := o
   o := { o with st := (o.st.bump "kindC").bump s!"chain_len_{n}" }
   -- model chain: every generated message fails permanently at its single recipient
@@ -466,7 +563,7 @@ def handleC (o : Out) (blobh : String) (blob : Bytes) (n : Nat) (s0 : Bytes) (en
       | none => acc.reverse
       | some m' =>
         let t := m'.rcpts.headD []
-        go fuel m' (some (addbounceText cfg.tables t chainReport)) ((m'.sender, t) :: acc)
+        go fuel m' (some (bounceFile cfg.tables [failOf t chainReport])) ((m'.sender, t) :: acc)
   let mchain := go 6 m0 (if fails.isEmpty then none else some (bounceFile cfg.tables fails)) []
   if mchain != env || s0 != sender || n != env.length then
     o := o.dis s!"in={blobh} kind=C impl={env.map (fun (a, b) => hex a ++ ">" ++ hex b)} model={mchain.map (fun (a, b) => hex a ++ ">" ++ hex b)}"
@@ -504,31 +601,31 @@ def handle (chain : IO.Ref Chain) (st : Stats) (line : String) : IO Stats := do
       st := { st with samples := st.samples + 1 }
     return st
   match fsl with
-  | ["P", blobh, sh, th, _sleeps] =>
-    match unhex blobh, unhex sh, unhex th with
-    | some blob, some s, some t =>
-      let o := handleP { st := st } blobh blob s t
+  | ["P", blobh, sh, th, _sleeps, flags, storedh] =>
+    match unhex blobh, unhex sh, unhex th, b01 flags, unhex storedh with
+    | some blob, some s, some t, some flag, some stored =>
+      let o := handleP { st := st } blobh blob s t flag stored
       let fs := splitNul blob
-      let nontriv := s != fld fs 1 || hasLFLF (fld fs 2) || (fld fs 2).head? == some LF || (fld fs 1).contains LF
-        || (match domainPart (fld fs 1) with | some d => isLocal (readfile (fld fs 4)) d | none => false)
-      finish o blob nontriv s!"kind=P in={blobh} stripped={sh} text={th}"
-    | _, _, _ => bad
+      let nontriv := s != stored || stored != fld fs 1 || hasLFLF (fld fs 2) || (fld fs 2).head? == some LF || (fld fs 1).contains LF
+        || (match domainPart stored with | some d => isLocal (readfile (fld fs 4)) d | none => false)
+      finish o blob nontriv s!"kind=P in={blobh} flagstrip={flags} stored={storedh} stripped={sh} text={th}"
+    | _, _, _, _, _ => bad
   | ["D", blobh, ah] =>
     match unhex blobh, unhex ah with
     | some blob, some a =>
       let o := handleD { st := st } blobh blob a
       finish o blob (a != ABSENT) s!"kind=D in={blobh} appended={ah}"
     | _, _ => bad
-  | ["I", ids, blobh, bfh, rets, qs, fh, ths, bodyh, lefts, logh, ret2s, q2s, f2h, t2hs, body2h, left2s, log2h, sizess] =>
-    match ids.toNat?, unhex blobh, unhex bfh, b01 rets, b01 qs, unhex fh, unhexList ths, unhex bodyh with
-    | some id, some blob, some bf, some ret, some q, some f, some t, some body =>
+  | ["I", ids, blobh, bfh, rets, qs, fh, ths, bodyh, lefts, logh, ret2s, q2s, f2h, t2hs, body2h, left2s, log2h, sizess, routess] =>
+    match ids.toNat?, unhex blobh, unhex bfh, b01 rets, b01 qs, unhex fh, unhexList ths, unhex bodyh, parseRoutes routess with
+    | some id, some blob, some bf, some ret, some q, some f, some t, some body, some routes =>
       match b01 lefts, unhex logh, b01 ret2s, b01 q2s, unhex f2h, unhexList t2hs, b01 left2s with
       | some left, some log, some ret2, some q2, some f2, some t2, some left2 =>
         let body2 : Option (Option Bytes) := if body2h == "=" then some none else (unhex body2h).map some
         match body2 with
         | some body2 =>
           let bfile := if bfh == "-" then none else some bf
-          let o := handleI { st := st } id blobh blob bfile ret q f t body left log ret2 q2 f2 t2 body2 left2
+          let o := handleI { st := st } id blobh blob bfile ret q f t body left log ret2 q2 f2 t2 body2 left2 routes
           let sizes : Option (List Nat) := if sizess == "-" then some [] else (sizess.splitOn ",").mapM (·.toNat?)
           let o ← (match unhex log2h, sizes with
             | some log2, some szs => do
@@ -536,7 +633,8 @@ def handle (chain : IO.Ref Chain) (st : Stats) (line : String) : IO Stats := do
               let ch ← chain.get
               let ctl := controlsOf fs
               let (o', ch') := daemonI o ch id blobh (specLocals ctl.locals ctl.me) (specVdoms ctl.virtualdomains)
-                (specDoubleBounceTo ctl.doublebounceto ctl.doublebouncehost ctl.me) (fld fs 9) (pairsFrom (fs.drop 11))
+                (specDoubleBounceTo ctl.doublebounceto ctl.doublebouncehost ctl.me) (fld fs 9)
+                ((List.zip routes (pairsFrom (fs.drop 11))).map (fun (rt, g) => (rt.1, rt.2, g.2)))
                 bfile ret q f t body left log ret2 q2 f2 t2 (body2.getD body) left2 log2 szs
               chain.set ch'
               pure o'
@@ -544,6 +642,16 @@ def handle (chain : IO.Ref Chain) (st : Stats) (line : String) : IO Stats := do
           finish o blob (q || !ret) s!"kind=I in={blobh} ret={rets} q={qs} F={fh} T={ths} left={lefts} log={logh} body={bodyh}"
         | none => bad
       | _, _, _, _, _, _, _ => bad
+    | _, _, _, _, _, _, _, _, _ => bad
+  | ["Q", blobh, bfh, rets, lefts, recs, msgh, envh, ret2s, left2s, rec2s, msg2h, env2h, routess] =>
+    match unhex blobh, unhex bfh, b01 rets, b01 lefts, b01 recs, unhex msgh, unhex envh, parseRoutes routess with
+    | some blob, some bf, some ret, some left, some rec, some msg, some env, some routes =>
+      match b01 ret2s, b01 left2s, b01 rec2s, unhex msg2h, unhex env2h with
+      | some ret2, some left2, some rec2, some msg2, some env2 =>
+        let bfile := if bfh == "-" then none else some bf
+        let o := handleQ { st := st } blobh blob bfile ret left rec msg env ret2 left2 rec2 msg2 env2 routes
+        finish o blob true s!"kind=Q in={blobh} ret={rets} left={lefts} rec={recs}"
+      | _, _, _, _, _ => bad
     | _, _, _, _, _, _, _, _ => bad
   | ["X", kind, blobh] =>
     IO.println s!"ORACLE in={blobh} kind={kind} why=implementation-crashed-or-sanitizer-error-on-this-input"
